@@ -141,7 +141,31 @@ def run(ctx, n=None):
         dist["accepted"] += not (a["params"] or a["services"])
         if a["params"] or a["services"]:
             nontriv.add(core.canon([sorted(a["params"]), sorted(a["services"])]))
-    return {"evaluations": len(cases), "distinct_nontrivial": len(nontriv),
+    # the consequence at run time: an accepted container never answers "does not exist" for anything the configuration
+    # declares or references (todo parameters/services answer with THEIR error), whatever is asked first
+    from vlib import behave
+    nb = 10 if ctx.quick else 120
+    items = [({"meta": {"pkg": "gen", "imports": {"fx": gen.FX}}, "parameters": {"x": "%todo()%", "y": "a%x%"},
+               "services": {"w": {"todo": True}, "w2": {"todo": True, "type": "*fx.Obj", "tags": ["t"]}, "a": {"constructor": "fx.NewA", "arguments": ["@w", "%x%", "!tagged t"]},
+                            "b": {"constructor": "fx.NewA", "fields": {"F1": "@w2"}, "calls": [["Call1", ["%y%"]]]}}}, None)]
+    items += [(gen.gen_config(ctx.rng), None) for _ in range(nb)]
+    items = [(c, [["get", s_] for s_ in c["services"]] + [["param", p_] for p_ in c.get("parameters", {})] + [["tagged", "t"], ["tagged", "nosuchtag"]]) for c, _ in items]
+    out, err = behave.run_batch(ctx, items, tag="c06")
+    dist["containers_run"] = 0
+    if err:
+        violations.append({"sig": "probe-build", "what": err})
+    for (cfg, ops), rec in zip(items, out):
+        if not rec["accepted"] or rec["impl"] is None:
+            continue
+        dist["containers_run"] += 1
+        if rec["model"] is not None:
+            for x in behave.compare_script(rec["impl"], rec["model"])[:1]:
+                if len(corr_fail) < 10:
+                    corr_fail.append({"op": "rt:get", "files": rec["files"], "at": ops[x[0]] if isinstance(x[0], int) else x[0], "impl": x[1], "model": x[2]})
+        for o, r in zip(ops, rec["impl"]):
+            if "does not exist" in (r.get("err") or "") and "environment variable" not in r["err"]:
+                violations.append({"sig": "existence:runtime", "what": "accepted container answers %r with %r: a declared/referenced name does not exist at run time" % (o, r["err"][:200]), "files": rec["files"]})
+    return {"evaluations": len(cases) + dist["containers_run"], "distinct_nontrivial": len(nontriv), "programs": dist["containers_run"],
             "rule": "generated configurations with declarations removed/renamed and dangling references added in every position (parameter chunk, constructor argument, call argument, field, decorator argument; multi-chunk, after %%); non-trivial = distinct non-empty diagnostic sets",
             "samples": [corr.files_of(c)[0][:600] for c in cases[:2] + cases[len(fixed):len(fixed) + 2]], "distribution": dist,
             "violations": violations, "corr_fail": corr_fail}
